@@ -853,7 +853,9 @@ func (s *clientSocket) _sendBuffers(volatile, forceSend bool, ackID *uint64, buf
 		}
 
 		s.stateMu.RLock()
-		sendImmediately := s.state == clientSocketConnStateConnected || s.state == clientSocketConnStateConnectPending
+		// While the CONNECT packet is pending the server has not admitted the socket yet: it closes the
+		// connection if it receives an event for this namespace now. Buffer it; it is sent by emitBuffered.
+		sendImmediately := s.state == clientSocketConnStateConnected
 		s.stateMu.RUnlock()
 		if sendImmediately || forceSend {
 			s.manager.packet(packets...)
